@@ -165,7 +165,7 @@ def n_edges(t):
 def case_index(g, rng, tier):
     r = rng.random()
     if r < 0.12:
-        n = rng.choice([63, 64, 65, 128, 129])
+        n = rng.choice([31, 32, 33, 63, 64, 65, 127, 128, 129])
     else:
         n = rng.randint(3, 40)
     t = rand_tree(g, rng, n)
@@ -314,6 +314,19 @@ def case_handbuilt(g, rng, tier):
          "i": rng.choice(inner)}
     return {"sx": sx(c), "meta": {"kind": "handbuilt", "flip": mode, "seq": seq}}
 
+def case_indexseq(g, rng, tier):
+    """the indexing step is one of the sequences the public API allows, with or without an earlier indexing"""
+    n = rng.randint(3, 18)
+    if rng.random() < 0.1:
+        n = rng.choice([31, 32, 33, 63, 64, 65])
+    t = rand_tree(g, rng, n, lenmode="all")
+    nodes = list(preorder(t))
+    inner = [i for i, x in enumerate(nodes) if len(x["slots"]) >= 2]
+    pre = rng.choice(["none", "none", "reinit", "reinit", "reroot", "hashes", "reinit_reroot"])
+    seq = rng.choice(["reinit", "three", "three", "three_hashes", "tipindex", "nothing"])
+    c = {"kind": Sym("indexseq"), "tree": T(t), "pre": Sym(pre), "seq": Sym(seq), "i": rng.choice(inner)}
+    return {"sx": sx(c), "meta": {"kind": "indexseq", "pre": pre, "seq": seq}}
+
 def case_parmap(g, rng, tier):
     """k goroutines on one shared HashMap; every key is owned by one goroutine"""
     k = rng.choice([2, 4, 8])
@@ -457,15 +470,15 @@ def case_quartet(g, rng, tier, small=None):
 
 def gen(rng, tier):
     g = Gen(rng)
-    counts = {"quick":    {"index": 100, "edit": 100, "handbuilt": 40, "samebip": 45, "edgeindex": 70, "hashmap": 60, "parmap": 12,
+    counts = {"quick":    {"index": 100, "edit": 100, "handbuilt": 40, "indexseq": 70, "samebip": 45, "edgeindex": 70, "hashmap": 60, "parmap": 12,
                            "qmap": 20, "quartet": 10},
-              "thorough": {"index": 2500, "edit": 2500, "handbuilt": 800, "samebip": 900, "edgeindex": 1500, "hashmap": 1500,
+              "thorough": {"index": 2500, "edit": 2500, "handbuilt": 800, "indexseq": 1500, "samebip": 900, "edgeindex": 1500, "hashmap": 1500,
                            "parmap": 150, "qmap": 300, "quartet": 150},
-              "search":   {"index": 100, "edit": 100, "handbuilt": 60, "samebip": 50, "edgeindex": 80, "hashmap": 80, "parmap": 20,
+              "search":   {"index": 100, "edit": 100, "handbuilt": 60, "indexseq": 80, "samebip": 50, "edgeindex": 80, "hashmap": 80, "parmap": 20,
                            "qmap": 20, "quartet": 10}}[tier]
     def edit_any(g, rng, tier):
         return case_edit_removetips(g, rng, tier) if rng.random() < 0.3 else case_edit(g, rng, tier)
-    makers = {"index": case_index, "edit": edit_any, "handbuilt": case_handbuilt, "parmap": case_parmap, "samebip": case_samebip, "edgeindex": case_edgeindex, "hashmap": case_hashmap,
+    makers = {"index": case_index, "edit": edit_any, "handbuilt": case_handbuilt, "indexseq": case_indexseq, "parmap": case_parmap, "samebip": case_samebip, "edgeindex": case_edgeindex, "hashmap": case_hashmap,
               "qmap": case_qmap, "quartet": case_quartet}
     out = []
     # the smallest quartet pairs first: taxa {0,1,2,3} against itself
